@@ -4,6 +4,7 @@ import (
 	"go/ast"
 	"go/types"
 	"log"
+	"strings"
 
 	"github.com/goghcrow/go-ast-matcher"
 	"github.com/goghcrow/go-imports"
@@ -230,7 +231,14 @@ func stableCallee(ctx astmatcher.Ctx, lit *ast.FuncLit) bool {
 		return false
 	}
 	litTy, funTy := ctx.TypeOf(lit), ctx.TypeOf(call.Fun)
-	return litTy != nil && funTy != nil && types.Identical(litTy, funTy)
+	return litTy != nil && funTy != nil && resolved(litTy) && resolved(funTy) && types.Identical(litTy, funTy)
+}
+
+// whether ty is free of types the optimizer could not resolve: errors are suppressed when the rewritten files
+// are reloaded, e.g., the types declared in the hand-written files of a package are missing in go:generate mode,
+// and two unresolved types are both the invalid type, which is identical to itself
+func resolved(ty types.Type) bool {
+	return !strings.Contains(types.TypeString(ty, nil), types.Typ[types.Invalid].String())
 }
 
 // whether expr refers to one of the parameters of lit
